@@ -72,6 +72,8 @@ pub enum Mutation {
     /// replace everything by random bytes
     Random { n: usize, fill: u64 },
     DupChunk { at: u64, n: usize },
+    /// overwrite the head of the payload with a crafted format header (see `HEADS`)
+    SetHead { bytes: Vec<u8> },
 }
 
 #[derive(Clone, Debug, Serialize, Deserialize)]
@@ -127,6 +129,12 @@ pub fn apply(mut data: Vec<u8>, muts: &[Mutation]) -> Vec<u8> {
                 }
             }
             Mutation::Random { n, fill } => data = Rng::new(*fill).bytes(*n),
+            Mutation::SetHead { bytes } => {
+                if data.len() < bytes.len() {
+                    data.resize(bytes.len(), 0);
+                }
+                data[..bytes.len()].copy_from_slice(bytes);
+            }
             Mutation::DupChunk { at, n } => {
                 if !data.is_empty() {
                     let p = pos(*at, data.len());
@@ -142,10 +150,47 @@ pub fn apply(mut data: Vec<u8>, muts: &[Mutation]) -> Vec<u8> {
 
 const ADVERSARIAL: &[u64] = &[0, 1, 2, 255, 256, 65_535, 1 << 20, (1 << 20) + 1, 1 << 24, 1 << 31, 1 << 32, 1 << 40, 1 << 62, 1 << 63, u64::MAX, u64::MAX - 7];
 
+/// Format-aware stream heads: the places where a compression format announces how much memory the decoder
+/// should set aside before any data is read. `0xA5` bytes are replaced by random bytes.
+const HEADS: &[&[u8]] = &[
+    // brotli: WBITS encodings, including the 0x11 "large window" marker followed by its window size
+    &[0x11, 0xA5],
+    &[0x11, 0x1e],
+    &[0x11, 0x3e, 0xA5, 0xA5],
+    &[0x0f, 0xA5],
+    &[0x81, 0xA5],
+    &[0x21, 0xA5],
+    // zstd: magic, frame header descriptor, window descriptor / frame content size
+    &[0x28, 0xb5, 0x2f, 0xfd, 0x00, 0xff],
+    &[0x28, 0xb5, 0x2f, 0xfd, 0xA5, 0xA5],
+    &[0x28, 0xb5, 0x2f, 0xfd, 0xe0, 0xff, 0xff, 0xff, 0xff, 0xff, 0xff, 0xff, 0xff],
+    &[0x28, 0xb5, 0x2f, 0xfd, 0xc0, 0xf8, 0xff, 0xff, 0xff, 0xff, 0xff, 0xff, 0xff, 0xff],
+    // zstd skippable frame with a huge length
+    &[0x50, 0x2a, 0x4d, 0x18, 0xff, 0xff, 0xff, 0xff],
+    // lz4 frame: magic, FLG (content size present), BD (max block 4 MiB), content size
+    &[0x04, 0x22, 0x4d, 0x18, 0x6c, 0x70, 0xff, 0xff, 0xff, 0xff, 0xff, 0xff, 0xff, 0x7f],
+    &[0x04, 0x22, 0x4d, 0x18, 0xA5, 0xA5, 0xA5],
+    // lz4 legacy frame / skippable frame
+    &[0x02, 0x21, 0x4c, 0x18, 0xff, 0xff, 0xff, 0x7f],
+    &[0x50, 0x2a, 0x4d, 0x18, 0xff, 0xff, 0xff, 0x7f],
+    // gzip: magic, deflate, flags (FEXTRA / FNAME / FCOMMENT / FHCRC)
+    &[0x1f, 0x8b, 0x08, 0xA5],
+    &[0x1f, 0x8b, 0x08, 0x04, 0, 0, 0, 0, 0, 0, 0xff, 0xff],
+    // zlib: CMF/FLG with a preset dictionary, maximal window
+    &[0x78, 0xbb, 0xA5, 0xA5, 0xA5, 0xA5],
+    &[0x78, 0x9c, 0xA5],
+];
+
+pub fn gen_head(rng: &mut Rng) -> Vec<u8> {
+    let h = *rng.pick(HEADS);
+    h.iter().map(|b| if *b == 0xA5 { rng.below(256) as u8 } else { *b }).collect()
+}
+
 fn gen_mutations(rng: &mut Rng, field_biased: bool) -> Vec<Mutation> {
     let n = *rng.pick(&[0usize, 1, 1, 1, 2, 2, 3, 5]);
     (0..n)
-        .map(|_| match rng.below(if field_biased { 12 } else { 9 }) {
+        .map(|_| match rng.below(if field_biased { 13 } else { 9 }) {
+            12 => Mutation::SetHead { bytes: gen_head(rng) },
             0 | 1 => Mutation::BitFlip { at: rng.next(), bit: rng.below(8) as u8 },
             2 => Mutation::Truncate { at: rng.next() },
             3 => Mutation::Insert { at: rng.next(), n: rng.usize(1, 16), fill: rng.next() },
@@ -184,7 +229,13 @@ pub fn gen_script(rng: &mut Rng) -> HostileScript {
             bincode: rng.chance(1, 2),
         },
     };
-    HostileScript { target, mutations: gen_mutations(rng, true), rplan: gen_rplan(rng) }
+    let mut mutations = gen_mutations(rng, true);
+    let compressed = matches!(&target, Target::Decompress { .. } | Target::SubscriberChain { algo: Some(_), .. });
+    if compressed && rng.chance(1, 4) {
+        let at = rng.usize(0, mutations.len());
+        mutations.insert(at, Mutation::SetHead { bytes: gen_head(rng) });
+    }
+    HostileScript { target, mutations, rplan: gen_rplan(rng) }
 }
 
 fn compressor(algo: Algo) -> Box<dyn Compress> {
@@ -230,6 +281,11 @@ fn text_payload(size: usize, fill: u64) -> Vec<u8> {
     s.into_bytes()
 }
 
+thread_local! {
+    /// hands a stage's output out of the unwind-safe closure
+    static STAGE: std::cell::RefCell<Vec<Bytes>> = const { std::cell::RefCell::new(vec![]) };
+}
+
 /// One guarded decoding step: runs `f`, converts a panic into a violation, checks the allocation guard.
 fn guarded<F: FnOnce() -> String>(out: &mut Outcome, prop: &str, name: &str, input_len: usize, f: F) -> Option<String> {
     let threshold = (256usize << 20) + 16 * input_len;
@@ -263,6 +319,7 @@ pub fn execute(prop: &str, sc: &HostileScript, opts: &ExecOpts) -> Outcome {
             Mutation::SetU64Be { .. } | Mutation::SetU64Le { .. } => "adversarial_length_field",
             Mutation::Random { .. } => "random_bytes",
             Mutation::DupChunk { .. } => "chunk_duplication",
+            Mutation::SetHead { .. } => "crafted_format_header",
         };
         out.fault(k);
     }
@@ -437,31 +494,54 @@ pub fn execute(prop: &str, sc: &HostileScript, opts: &ExecOpts) -> Outcome {
             let data = apply(body.to_vec(), &sc.mutations);
             let n = data.len();
             let (a, batched, bincode) = (*algo, *batched, *bincode);
-            let res = guarded(&mut out, prop, "subscriber-chain", n, move || {
+            // every stage is guarded on its own, so that a finding names the stage that misbehaved
+            let res = (|| {
                 let mut bytes = Bytes::from(data);
                 if let Some(a) = a {
-                    match decompressor(a).decompress(bytes) {
-                        Ok(b) => bytes = b,
-                        Err(_) => return "decompress-err".into(),
+                    let input = bytes.clone();
+                    let name = format!("{a:?}::decompress").to_lowercase();
+                    let r = guarded(&mut out, prop, &name, n, move || match decompressor(a).decompress(input) {
+                        Ok(b) => {
+                            STAGE.with(|s| *s.borrow_mut() = vec![b]);
+                            "ok".into()
+                        }
+                        Err(_) => "decompress-err".into(),
+                    })?;
+                    if r != "ok" {
+                        return Some(r);
                     }
+                    bytes = STAGE.with(|s| s.borrow_mut().pop()).unwrap_or_default();
                 }
                 let parts = if batched {
-                    match decode_message_batch(bytes).into_batch() {
-                        Ok(p) => p,
-                        Err(_) => return "unbatch-err".into(),
+                    let input = bytes.clone();
+                    let r = guarded(&mut out, prop, "decode_message_batch", n, move || match decode_message_batch(input).into_batch() {
+                        Ok(p) => {
+                            STAGE.with(|s| *s.borrow_mut() = p);
+                            "ok".into()
+                        }
+                        Err(_) => "unbatch-err".into(),
+                    })?;
+                    if r != "ok" {
+                        return Some(r);
                     }
+                    STAGE.with(|s| std::mem::take(&mut *s.borrow_mut()))
                 } else {
                     vec![bytes]
                 };
                 let mut d = format!("{} parts;", parts.len());
+                let codec = if bincode { "BincodeCodec::decode" } else { "StringCodec::decode" };
                 for p in parts {
-                    let mut b = BytesMut::with_capacity(p.len());
-                    b.extend_from_slice(&p);
-                    let ok = if bincode { BincodeCodec::<Rec>::default().decode(&mut b).is_ok() } else { StringCodec.decode(&mut b).is_ok() };
-                    d.push_str(if ok { "ok;" } else { "err;" });
+                    let len = p.len();
+                    let r = guarded(&mut out, prop, codec, len.max(n), move || {
+                        let mut b = BytesMut::with_capacity(p.len());
+                        b.extend_from_slice(&p);
+                        let ok = if bincode { BincodeCodec::<Rec>::default().decode(&mut b).is_ok() } else { StringCodec.decode(&mut b).is_ok() };
+                        (if ok { "ok;" } else { "err;" }).into()
+                    })?;
+                    d.push_str(&r);
                 }
-                d
-            });
+                Some(d)
+            })();
             if let Some(d) = res {
                 if !corrupted && (d.contains("err") || !d.starts_with(&format!("{} parts", if batched { items.len() } else { 1 }))) {
                     out.violate(prop, "valid-input-rejected", "subscriber-chain", format!("uncorrupted publisher output failed the subscriber chain: {d}"));
